@@ -585,6 +585,23 @@ def gen_trans(rng, depth, chans, dur, opt, const_bias):
         ins = rng.sample(pool, rng.randint(1, min(2, len(pool))))
         m = [[fs(rng.choice([F(1), F(-1), F(1, 2), F(0), F(2)])) for _ in ins] for _ in outs]
         return ['trans', opt, sub(fwd + ins), ['linear', ins, outs, m]]
+    if kind == 'chain' and strs and rng.random() < 0.45:
+        # a parallel-channel transformation feeding a linear one (or the other way round)
+        outs = rng.sample(strs, 1)
+        fwd = [c for c in chans if c not in outs]
+        pool = [c for c in range(1, 5) if c not in fwd]
+        if len(pool) >= 2:
+            ins = rng.sample(pool, 2)
+            m = [[fs(rng.choice([F(1), F(-1), F(1, 2), F(2)])) for _ in ins]]
+            lin = ['linear', ins, outs, m]
+            par = ['parallel', [[ins[0], gen_tval(rng)]]]
+            if rng.random() < 0.7:
+                inner_ch = sorted(set(fwd) | {ins[1]} | ({ins[0]} if rng.random() < 0.3 else set()))
+                return ['trans', opt, sub(inner_ch), ['chain', [par, lin]]]
+            new = [c for c in range(5) if c not in chans][:1]
+            if new:
+                return ['trans', opt, sub(sorted(set(fwd) | set(ins))),
+                        ['chain', [lin, ['parallel', [[rng.choice(chans), gen_tval(rng)]]]]]]
     if kind == 'chain':
         a = [rng.choice(['scale', 'offset']), [[c, gen_tval(rng)] for c in chans if rng.random() < 0.8] or [[chans[0], ['c', '2']]]]
         b = [rng.choice(['scale', 'offset']), [[c, gen_tval(rng)] for c in chans if rng.random() < 0.8] or [[chans[0], ['c', '1/2']]]]
@@ -926,9 +943,27 @@ def classify(case, obs):
             return 'C08-reversed-composite-junction' if has_kind(r, REV) else 'C08-nan-at-duration'
         if has_kind(r, ('trans',)) and _hist_inplace(case):
             return 'C08-trafo-cache-stale-after-inplace-times'
+    if k in ('sample', 'hist') and _has_parallel_before_linear(r) and _has_keyerror(obs):
+        return 'C08-chain-parallel-linear-keyerror'
     if k == 'eq' and obs.get('built') and obs.get('eq') and obs.get('hash_eq') is None and has_kind(r, ('functor', 'neg')):
         return 'C08-functor-unhashable'
     return None
+
+
+def _has_parallel_before_linear(r):
+    if not isinstance(r, list):
+        return False
+    if r and r[0] == 'chain':
+        kinds = [x[0] for x in r[1]]
+        if 'parallel' in kinds and 'linear' in kinds and kinds.index('parallel') < len(kinds) - 1 - kinds[::-1].index('linear'):
+            return True
+    return any(_has_parallel_before_linear(x) for x in r if isinstance(x, list))
+
+
+def _has_keyerror(obs):
+    if 'built' in obs:
+        return any(p['gs'].get('err') == 'EKey' and p['us'] is not None for p in obs['built']['per'])
+    return any(a.get('err') == 'EKey' for a in obs.get('answers', []))
 
 
 def _hist_hits_boundary(case):
